@@ -234,6 +234,12 @@ func xbinExec(ctx *Ctx, w []string) {
 				return fmt.Sprintf("err %d", n)
 			}
 			ctx.mon("C16-in-bounds", n > 0 && n <= len(b), fmt.Sprintf("UnmarshalUint(%s) n=%d", w[1], n))
+			{
+				bk := append(make([]byte, 0, len(b)+16), b...)
+				copy(bk[len(b):cap(bk)], []byte{0x81, 0x82, 0x83, 0x01, 0x81, 0x82, 0x83, 0x01, 0x81, 0x82, 0x83, 0x01, 0x81, 0x82, 0x83, 0x01})
+				vn, vv, verr := xbinary.UnmarshalUint(bk)
+				ctx.mon("C16-variants-total", verr == nil && vn == n && vv == v, fmt.Sprintf("UnmarshalUint(%s) on a window into a larger buffer gives (%d,%d,%v), on the exact slice (%d,%d)", w[1], vn, vv, verr, n, v))
+			}
 			return fmt.Sprintf("ok %d %d", n, v)
 		case "sz":
 			v, _ := strconv.ParseUint(w[1], 10, 64)
@@ -313,11 +319,33 @@ func xbinExec(ctx *Ctx, w []string) {
 			monCount("C16 in-bounds")
 			// the copying variant and the string variants decode the same bytes: they must be total on the same
 			// inputs (also on the ones that are rejected), agree on error / consumed length, and never panic
-			for _, variant := range []string{"bytes-copy", "string", "string-copy"} {
+			// … and the same bytes handed over as a window into a larger buffer (len < cap, foreign bytes behind
+			// the end, as with a read buffer or bytes.Buffer.Bytes()): what lies beyond len(buf) is not input
+			view := func() []byte {
+				bk := make([]byte, len(b)+96)
+				for i := range bk {
+					bk[i] = 'A' + byte(i%23)
+				}
+				copy(bk, b)
+				return bk[:len(b)]
+			}
+			for _, variant := range []string{"bytes-copy", "string", "string-copy", "bytes-view", "bytes-copy-view", "string-view"} {
 				res := guard(func() string {
 					var vn int
 					var verr error
 					switch variant {
+					case "bytes-view", "bytes-copy-view":
+						var vd []byte
+						vn, vd, verr = xbinary.UnmarshalBytes(view(), variant == "bytes-copy-view")
+						if verr == nil && err == nil && !bytes.Equal(vd, d) {
+							return "other-bytes"
+						}
+					case "string-view":
+						var vs string
+						vn, vs, verr = xbinary.UnmarshalString(view(), false)
+						if verr == nil && err == nil && vs != string(d) {
+							return "other-bytes"
+						}
 					case "bytes-copy":
 						vn, _, verr = xbinary.UnmarshalBytes(b, true)
 					case "string":
@@ -522,6 +550,18 @@ func runXbin(ctx *Ctx) {
 		for n := 0; n <= l+3; n++ {
 			do("mb %s %d", hx(d), n)
 		}
+		do("wb %s", hx(d))
+	}
+	// the stream writer against Marshal for every length up to 300 (quick: every length to 70, then thinned)
+	for l := 41; l <= 300; l++ {
+		if !ctx.Thorough && l > 70 && l%7 != 0 && (l < 120 || l > 135) && (l < 250 || l > 262) {
+			continue
+		}
+		d := make([]byte, l)
+		for i := range d {
+			d[i] = byte(r.U64())
+		}
+		do("wb %s", hx(d))
 	}
 	// --- concatenations
 	ctx.R.Case("concat")
